@@ -1,5 +1,6 @@
 """Shared extraction for the LZ10 / LZ13 encoders (C08, C09, C10): bit-slice domain, token emission
 per branch, search-call wiring, caps and thresholds.  All read off the MIR paths of `compress`."""
+import re
 from mir import fmt, walk, strip_refs, callee_names, norm
 from flow import enum_paths, PathLimit, cond_truth
 
@@ -41,6 +42,22 @@ def bitslice(t, classify):
         return (clip(pl, 0, bits), c & ((1 << bits) - 1))
     if tag == "field" and t[1][0] == "bin" and t[1][1].endswith("WithOverflow") and t[3] == 0:
         return bitslice(("bin", t[1][1].replace("WithOverflow", ""), t[1][2], t[1][3]), classify)
+    if tag == "index" and t[2][0] == "const":
+        # byte i of v.to_be_bytes() / v.to_le_bytes()
+        base = t[1]
+        while base[0] in ("ref", "deref"):
+            base = base[1]
+        if base[0] == "call" and len(base[2]) == 1:
+            m = re.search(r"<impl (u8|u16|u32|u64|i16|i32|i64)>::to_(be|le)_bytes$", base[1])
+            if m:
+                n = {"u8": 1, "u16": 2, "i16": 2, "u32": 4, "i32": 4, "u64": 8, "i64": 8}[m.group(1)]
+                i = t[2][1]
+                if 0 <= i < n:
+                    lo = 8 * (n - 1 - i) if m.group(2) == "be" else 8 * i
+                    a, ca = bitslice(base[2][0], classify)
+                    return bitslice(("bin", "BitAnd", ("bin", "Shr", base[2][0], ("const", lo, "u32")), ("const", 0xFF, "u32")), classify)
+    if tag == "call" and len(t[2]) == 1 and re.search(r"::from$", t[1]) and re.search(r"From<(u8|u16|u32)> for (u16|u32|u64|usize|i32|i64)>", t[1]):
+        return bitslice(t[2][0], classify)
     if tag == "bin":
         op = t[1].replace("WithOverflow", "").replace("Unchecked", "")
         if op in ("Add", "Sub"):
